@@ -223,6 +223,9 @@ Section ArrAlloc.
       { unfold shared_get, rd_gp. rewrite E2. cbn [bind ogp ptr_obj]. unfold gget. cbn [gself gp]. rewrite addr_eqb_refl.
         cbn [bind]. unfold rd_data. rewrite L2. cbn [bind dup ugp gself gp]. rewrite addr_eqb_refl. reflexivity. }
       rewrite G2. cbn [bind].
+      assert (Bm0 : block_size (al s2) m = Some (HDR + nm * sz)).
+      { rewrite (block_size_malloc ok _ _ _ _ m M2), Nat.eqb_refl. reflexivity. }
+      rewrite Bm0. replace (HDR <=? HDR + nm * sz) with true by (symmetry; apply N.leb_le; lia).
       assert (OFF : off_at (wr_desc s2 m (mkDesc sz nm Inline)) a = 0).
       { unfold off_at, wr_desc, set_descs. cbn [objs]. rewrite E2. reflexivity. }
       rewrite OFF. rewrite (set_offlen_eq _ a (ptr_obj a o1 (Some d))) by (unfold wr_desc, set_descs; cbn [objs]; exact E2).
@@ -1220,7 +1223,8 @@ Section LocA.
     rewrite R, bind_rmap. destruct (if v0 then shared_reset s a else array_reset s a) as [s1| |]; cbn [bind rmap]; auto.
     destruct (negb v0 && negb (sz =? 0) && ((MAX64 - HDR) / sz <? nm)); cbn [rmap]; auto.
     rewrite (blank_shared_alloc ok) by auto. rewrite bind_rmap.
-    destruct (shared_alloc ok s1 a _ None) as [s2| |]; cbn [bind rmap]; auto. bl3.
+    destruct (shared_alloc ok s1 a _ None) as [s2| |]; cbn [bind rmap]; auto.
+    change (al (blank x s2)) with (al s2). bl3.
   Qed.
 
   Lemma blank_array_set x s a e nm sz :
